@@ -84,6 +84,9 @@ FarLines == {[kind |-> "line", path |-> p, q |-> q, off |-> o] : p \in LongPaths
 Shifts == {-20, 24}
 ScaledShapes == UNION {{[kind |-> "shape", base |-> sh, spelled |-> sp, sh |-> k] : sp \in {x \in SpelledOf(sh) : TRUE}, k \in Shifts} : sh \in BaseShapes}
 ScaledLines == {[kind |-> "line", path |-> p, q |-> q, sh |-> k] : p \in LongPaths, q \in {<<10, 10>>, <<13, 16>>, <<30, 5>>}, k \in Shifts}
-GenInit == c \in AreaCases \cup LineCases \cup NearCases \cup BufferCases \cup FarShapes \cup FarLines \cup ScaledShapes \cup ScaledLines /\ PrintT(ToJson(c))
+(* lengths at magnitudes whose squares leave the floating-point range (2^600 squared overflows, 2^-600 squared is zero): the
+   length of a path is still an ordinary number there; only the length clauses are examined for these cases *)
+HugeLines == {[kind |-> "len", path |-> p, q |-> <<10, 10>>, sh |-> k] : p \in LongPaths, k \in {-600, 600}}
+GenInit == c \in HugeLines \cup AreaCases \cup LineCases \cup NearCases \cup BufferCases \cup FarShapes \cup FarLines \cup ScaledShapes \cup ScaledLines /\ PrintT(ToJson(c))
 GenSpec == GenInit /\ [][UNCHANGED c]_c
 =============================================================================
